@@ -2,6 +2,8 @@
 F = "kappadata/samplers/interleaved_sampler.py"
 
 MUTANTS = [
+    ("start_update derived by dividing samples by updates per epoch", [(F, "            start_update = start_sample // batch_size\n", "            start_update = start_sample // updates_per_epoch\n")], "G6.derivation-units"),
+    ("start_sample derived as updates times updates per epoch", [(F, "            start_sample = start_update * batch_size\n", "            start_sample = start_update * updates_per_epoch\n")], "G6.derivation-units"),
     ("a trigger table computed from start_sample before the checkpoint is completed", [(F, "        # infer full start checkpoint from one of epoch/update/sample\n", "        self.first_triggers = [None if c.every_n_samples is None else ((start_sample or 0) // c.every_n_samples + 1) * c.every_n_samples for c in configs]\n        # infer full start checkpoint from one of epoch/update/sample\n")], "G9.checkpoint-complete-at-use"),
     ("bookkeeping starts at 0 (the original defect)", [(F, "        sample_at_last_update = self.start_sample\n", "        sample_at_last_update = 0\n")], "G8.init-units"),
     ("bookkeeping starts at the update checkpoint", [(F, "        sample_at_last_update = self.start_sample\n", "        sample_at_last_update = self.start_update\n")], "G8.init-units"),
